@@ -329,6 +329,11 @@ def run(ctx):
     if nf == 0:
         R.violation('b', 'R7', 'wire integers are decoded somewhere in the decoder closure', 'taint:vacuous',
                     'no from_be_bytes/from_le_bytes source found: the rule would pass vacuously', None)
+    else:
+        # one taint pass decides the three sink kinds; clauses (a) and (c) are its allocation / index sinks
+        for cl_, kind_, what_ in (('a', 'alloc', 'allocation sized by'), ('c', 'index', 'panicking index / split with')):
+            if not any(o['clause'] == cl_ for o in R.obligations):
+                R.ok(cl_, 'R7', 'decoder closure: no %s a wire-integer-derived value' % what_, '%d functions with wire integers, %d derived locals examined' % (nf, total_tainted))
 
     # ---- R8
     used = {}
